@@ -73,6 +73,18 @@ def case_strategy(draw):
     return {"reqs": reqs, "unsol": sorted(unsol), "drops": sorted(drops), "stay_down": stay_down, "sched": sched}
 
 
+def _reconnect(rig, sim, system, inbox):
+    """Peer reconnects and selects; the Select.rsp is read by the peer actor (it owns the socket's receive side)."""
+    if not rig.connect_peer():
+        return False
+    rig.peer.send(e37.control_frame(e37.SELECT_REQ, system))
+    for _ in range(20):
+        sim.advance(0.05)
+        if any(f["stype"] == e37.SELECT_RSP and f["system"] == system for f in inbox):
+            break
+    return rig.state() == "CONNECTED_SELECTED"
+
+
 def _text(j, k):
     return f"r{j}c{k}".encode()
 
@@ -126,29 +138,92 @@ def run_case(case, observe=None):
         drops = [t0 + t for t in case["drops"]]
         sent_unsol = []  # system bytes in send order
         replies_sent = {}  # (j,k) -> t
+        # A peer actor INSIDE the simulation reads the endpoint's frames and answers zero-delay replies at once, so that a
+        # reply can overtake a requester that is preempted between sending and waiting; everything else (delays, late
+        # replies, unsolicited primaries, link drops) is scripted by the controller loop below from the actor's inbox.
+        inbox = []
+        actor_stop = [False]
+        selshim = __import__("secsgem.common.tcp_connection", fromlist=["select"]).select
+        fast = bool(case.get("fast_peer", True))
+
+        def peer_actor():
+            buf = {"sock": None, "data": b""}
+            while not actor_stop[0]:
+                sock = rig.peer
+                if sock is None or sock.closed:
+                    tshim.sleep(0.01)
+                    continue
+                if buf["sock"] is not sock:
+                    buf["sock"], buf["data"] = sock, b""
+                try:
+                    r, _, _ = selshim.select([sock], [], [], 0.02)
+                except ValueError:
+                    continue
+                if not r:
+                    continue
+                try:
+                    chunk = sock.recv(65536)
+                except (BlockingIOError, OSError):
+                    continue
+                if not chunk:
+                    tshim.sleep(0.01)
+                    continue
+                buf["data"] += chunk
+                frames, buf["data"] = e37.parse(buf["data"])
+                for f in frames:
+                    f["t"] = sim.now
+                    f["answered"] = False
+                    if fast and f["stype"] == e37.DATA and (f["stream"], f["function"]) == (10, 3):
+                        try:
+                            item = e5.decode_all(f["body"])
+                            jj = item[1][0][1][0]
+                            kk = int(item[1][1][1].decode().split("c")[1])
+                            spec = case["reqs"][jj]["calls"][kk]
+                        except Exception:
+                            spec = None
+                        if spec is not None and spec["act"] == "reply" and spec["delay"] == 0.0 and not sock.closed:
+                            try:
+                                sock.send(e37.data_frame(0, 10, 4, 0, f["system"], e5.encode(("B", b"\x00"))))
+                                f["answered"] = True
+                            except OSError:
+                                pass
+                    inbox.append(f)
+
+        sim.spawn(peer_actor, "peer-actor")
         usys = [0x66000]
         horizon = t0 + 3 * (T3 + 6) + 10
         link_up = True
         n_drops = 0
+        garbled = []
+
+        def process_inbox():
+            new_frames, inbox[:] = list(inbox), []
+            rig.frames_out.extend(new_frames)
+            for f in new_frames:
+                if f["stype"] == e37.DATA and (f["stream"], f["function"]) == (10, 3):
+                    try:
+                        item = e5.decode_all(f["body"])
+                        j = item[1][0][1][0]
+                        txt = item[1][1][1].decode()
+                        k = int(txt.split("c")[1])
+                    except Exception:
+                        garbled.append(Failure("request-frame-garbled", case, f["body"].hex(), "S10F3 body as sent"))
+                        continue
+                    wire[(j, k)] = {"sys": f["system"], "t": f["t"]}
+                    seen_sys.append((f["system"], f["t"], (j, k)))
+                    spec = case["reqs"][j]["calls"][k]
+                    if f.get("answered"):
+                        replies_sent[(j, k)] = f["t"]
+                    elif spec["act"] == "reply":
+                        pending.append((sim.now + spec["delay"], e37.data_frame(0, 10, 4, 0, f["system"], e5.encode(("B", b"\x00"))), ("reply", (j, k))))
+                    elif spec["act"] == "late":
+                        pending.append((sim.now + T3 + 1.0 + spec["delay"], e37.data_frame(0, 10, 4, 0, f["system"], e5.encode(("B", b"\x00"))), ("late", (j, k))))
+
         while sim.now < horizon:
             st_ = sim.advance(0.05)
-            if link_up:
-                for f in rig.drain():
-                    if f["stype"] == e37.DATA and (f["stream"], f["function"]) == (10, 3):
-                        try:
-                            item = e5.decode_all(f["body"])
-                            j = item[1][0][1][0]
-                            txt = item[1][1][1].decode()
-                            k = int(txt.split("c")[1])
-                        except Exception:
-                            return Failure("request-frame-garbled", case, f["body"].hex(), "S10F3 body as sent")
-                        wire[(j, k)] = {"sys": f["system"], "t": sim.now}
-                        seen_sys.append((f["system"], sim.now, (j, k)))
-                        spec = case["reqs"][j]["calls"][k]
-                        if spec["act"] == "reply":
-                            pending.append((sim.now + spec["delay"], e37.data_frame(0, 10, 4, 0, f["system"], e5.encode(("B", b"\x00"))), ("reply", (j, k))))
-                        elif spec["act"] == "late":
-                            pending.append((sim.now + T3 + 1.0 + spec["delay"], e37.data_frame(0, 10, 4, 0, f["system"], e5.encode(("B", b"\x00"))), ("late", (j, k))))
+            process_inbox()
+            if garbled:
+                return garbled[0]
             while unsol and unsol[0] <= sim.now:
                 unsol.pop(0)
                 usys[0] += 1
@@ -163,7 +238,7 @@ def run_case(case, observe=None):
             if not link_up and not drops and case.get("stay_down"):
                 t_reconnect = float("inf")  # the link stays down after the last drop: every call must still return
             if not link_up and sim.now >= t_reconnect:
-                if not rig.connect_peer() or not rig.select_from_peer(system=0x7700 + n_drops):
+                if not _reconnect(rig, sim, 0x7700 + n_drops, inbox):
                     return Failure("reconnect-failed", case, f"{rig.state()} {sim.blocked_report()}", "SELECTED again")
                 link_up = True
             if link_up:
@@ -179,6 +254,11 @@ def run_case(case, observe=None):
             if len(results) == total_calls and not drops and (not link_up or (not pending and not unsol)):
                 sim.advance(0.2)
                 break
+        actor_stop[0] = True
+        sim.advance(0.1)
+        process_inbox()
+        if garbled:
+            return garbled[0]
         # ---- invariants
         stats = {"drops": n_drops, "late_or_never": 0, "max_outstanding": 0, "stay_down": bool(case.get("stay_down")) and n_drops > 0}
         died = [(t.name, repr(t.error)) for t in threads if t.error is not None]
